@@ -1216,8 +1216,12 @@ class HistogramBase(abc.ABC):
         elif config.free_arithmetics:  # Treat other as array-like
             array = np.asarray(other)
             self._coerce_dtype(array.dtype)
-            self.frequencies = self.frequencies * array
-            self.errors2 = self.errors2 * array**2
+            # Integer factors count in 64 bits (their products and squares would wrap in a compact type)
+            wide = array.astype(np.int64) if array.dtype.kind in "iu" else array
+            frequencies = self.frequencies * wide
+            # The squared errors first: they are what may be refused
+            self.errors2 = self.errors2 * wide * wide
+            self.frequencies = frequencies
             if hasattr(self, "_stats"):
                 self._stats = INVALID_STATISTICS
             self._missed = self._missed * np.nan
@@ -1258,8 +1262,9 @@ class HistogramBase(abc.ABC):
         elif config.free_arithmetics:  # Treat other as array-like
             self._coerce_dtype(np.float64)
             array = np.asarray(other)
-            self.frequencies = self.frequencies / array
-            self.errors2 = self.errors2 / array**2
+            frequencies = self.frequencies / array
+            self.errors2 = self.errors2 / array / array  # (not `array**2`, see *=)
+            self.frequencies = frequencies
             if hasattr(self, "_stats"):
                 self._stats = INVALID_STATISTICS
             self._missed /= np.nan
